@@ -89,6 +89,7 @@ def scenario_for(seed, index, tier, _depth=0, _proto=None):
             mid += rng.choice([1, 127, 1000])
     ending = rng.random()
     disc = None
+    late = None
     if ending < 0.7:
         steps.append(['success'])
     else:
@@ -100,13 +101,22 @@ def scenario_for(seed, index, tier, _depth=0, _proto=None):
         enc = any(s[0] == 'encrypt' for s in steps)
         if not enc:
             enc_opts = None
+        if len(steps) > 1 and steps[-2][0] == 'plugin' and \
+                rng.random() < 0.5:
+            # the rejection comes a little after the last request, and the
+            # server may close abortively: the client's queued answer can
+            # then fail (ECONNRESET) with the disconnect packet still unread
+            late = {'pause_us': rng.choice([1000, 30000, 80000]),
+                    'rst': rng.random() < 0.7,
+                    'slow_out_us': rng.choice([0, 50000, 200000])}
+            steps.insert(len(steps) - 1, ['pause', late['pause_us']])
     auth = rng.random() < 0.5
     join = rng.choice(JOIN_REPLIES) if rng.random() < 0.35 else \
         JOIN_REPLIES[0]
     user_plugin = has_plugin and plugins and rng.random() < 0.35
     seg = rng.random() < 0.5
     play = [['ka', 77], ['expect', 1], ['disconnect', '{"text":"fin"}']]
-    logins = [{'steps': steps, 'disc': disc}]
+    logins = [{'steps': steps, 'disc': disc, 'late': late}]
     if _depth == 0 and rng.random() < 0.3:
         # the same Connection object logs in a second time: nothing of the
         # first attempt (however it ended) may leak into the second
@@ -132,7 +142,10 @@ def scenario_for(seed, index, tier, _depth=0, _proto=None):
         'proto': proto, 'logins': logins, 'auth': auth, 'join_reply': join,
         'second_via': via,
         'user_plugin_listener': bool(user_plugin),
-        'server': {'conns': [{'login': lg['steps'], 'play': play}
+        'server': {'conns': [dict({'login': lg['steps'], 'play': play},
+                                  **({'close_mode': 'rst'}
+                                     if (lg.get('late') or {}).get('rst')
+                                     else {}))
                              for lg in logins]},
         'net': {'latency_us': rng.choice([50, 500]), 'segment': seg,
                 'short_read': seg, 'max_seg': rng.choice([1, 16, 300])},
@@ -204,6 +217,16 @@ def execute(scenario, tape):
                 raise IgnorePacket
             conn.register_packet_listener(
                 on_plugin, clientbound.login.PluginRequestPacket, early=True)
+
+        def slow(p):
+            late_ = scenario['logins'][st['cur']].get('late')
+            if late_ and late_['slow_out_us'] and p.packet_name not in (
+                    'handshake', 'login start'):
+                w.sleep(late_['slow_out_us'])
+        if any((lg.get('late') or {}).get('slow_out_us')
+               for lg in scenario['logins']):
+            conn.register_packet_listener(slow, Packet, early=True,
+                                          outgoing=True)
 
         def user():
             handler = scenario.get('second_via') == 'handler'
@@ -349,8 +372,18 @@ def check_login(scenario, w, st, res, ids, k, lg, ob):
         return
     # --- server-side protocol observations
     ob()
-    if app.errors:
-        V.append(('C10/server-saw-protocol-error', app.errors[:3]))
+    errors = list(app.errors)
+    if (lg.get('late') or {}).get('rst'):
+        # a frame whose second send() failed on the reset connection is cut
+        # short by the fault itself, not by the client
+        errors = [e for e in errors if not e.startswith(
+            'client stream ended inside a frame')]
+        if sim.stats.get('fault.rst'):
+            res.probes['abortive-close-after-login-disconnect'] = 1
+        if any(k_ == 'send-rst' for _s, _t, k_, _d, _v in sim.history):
+            res.probes['answer-failed-with-disconnect-unread'] = 1
+    if errors:
+        V.append(('C10/server-saw-protocol-error', errors[:3]))
         return
     if enc_step is not None and app.enc is not None and \
             'secret' in app.enc:
